@@ -281,8 +281,8 @@ theorem c04_settled_book_all_paid (p : Params) (bal : List (Nat × Int)) (h t : 
     ∀ b ∈ s.books, b.status = OB_SETTLED → ∀ pt ∈ b.parts, pt.isSettled = true :=
   run_paidInv _ ops (retAll_init p bal h t h0) (fun b hb => by cases hb) hwf
 
-/-- C04.l  Paying never happens outside an end-block, and a participation is paid only in a book that left the active
-    state; conversely a paid participation was not paid before: `settleParticipation` fails on a paid record. -/
+/-- C04.l  `settleParticipation` fails on a paid record — in any state, for any book and market: together with
+    C04.j (a paid record stays the paid record) no second payment of a participation is possible. -/
 theorem c04_pay_needs_unpaid {s : State} {b : Book} {pt : Part} {m : Market} (hp : pt.isSettled = true) :
     settlePart s b pt m = none := by
   unfold settlePart
